@@ -288,7 +288,21 @@ CLAIMED = {
 REASON_PENDING = "check under construction (DESIGN.md section 9); not claimed yet"
 
 
+def load_claimed():
+    """design/manifest/Cxx.json (technique, text, note, design_ref) overrides the table above: the per-property level
+    texts are kept next to the design sections they summarise."""
+    out = dict(CLAIMED)
+    d = os.path.join(ROOT, "design", "manifest")
+    if os.path.isdir(d):
+        for fn in sorted(os.listdir(d)):
+            if fn.endswith(".json"):
+                j = json.load(open(os.path.join(d, fn)))
+                out[fn[:-5]] = (j["technique"], j["text"], j["note"], j.get("design_ref", "DESIGN.md section 6 " + fn[:-5]))
+    return out
+
+
 def main():
+    CLAIMED = load_claimed()
     props = [json.loads(l) for l in open(os.path.join(ROOT, "properties.jsonl"))]
     checks = []
     na = []
